@@ -93,7 +93,7 @@ def run(ck, only_case=None):
                 k += 1
         ck.tally('exhaustive_trees(<=3 entries)', k3)
         ck.tally('sampled_trees(4 entries, 12%)', k - k3)
-        ck.extra['exhaustive'] = 'ALL trees of <=3 entries (and a 12%% sample of those with 4) over the names {.zinoma, a.o, d, l}, ' \
+        ck.extra['exhaustive_scope'] = 'ALL trees of <=3 entries (and a 12%% sample of those with 4) over the names {.zinoma, a.o, d, l}, ' \
                                  'depth <=2, entries = file | directory | symlink to one of %r, x %d declarations ' \
                                  '(no filter/.o x 7 declared paths)' % ([t.decode() for t in fs.ENUM_TARGETS], len(fs.ENUM_QUERIES))
     with open(cf, 'w') as f:
